@@ -51,7 +51,7 @@ Pick == /\ IsEvent("wp_pick") /\ disp = 0
 PickGone == /\ IsEvent("wp_pick") /\ disp = 0 /\ dead[ClassNo(Ev.class)] > 0
             /\ dead' = [dead EXCEPT ![ClassNo(Ev.class)] = @ - 1]
             /\ disp' = 999999 /\ UNCHANGED <<stage, class, picked, connFree, permitFree, sure>>
-Guard == /\ IsEvent("wp_guard") /\ Ev.req \in Active /\ Ev.req \in picked /\ stage[Ev.req] \in {"sending", "queued"}
+Guard == /\ IsEvent("wp_guard") /\ disp = Ev.req /\ Ev.req \in Active /\ stage[Ev.req] \in {"sending", "queued"}
          /\ stage' = [stage EXCEPT ![Ev.req] = "guard"]
          /\ UNCHANGED <<class, picked, disp, connFree, permitFree, sure, dead>>
 Conn == /\ IsEvent("wp_conn") /\ Ev.req \in Active /\ stage[Ev.req] = "guard"       \* (C20_Exclusive is checked as an invariant on the resulting state)
@@ -80,8 +80,9 @@ Next == EnqStart \/ EnqEnd \/ Pick \/ PickGone \/ Guard \/ Conn \/ Hold \/ End \
 TraceSpec == Init /\ [][Next]_vars
 
 C20_Exclusive == Cardinality({r \in Active : stage[r] \in {"conn", "holding"}}) <= 1
-C20_OneGuard == /\ Cardinality({r \in Active : stage[r] \in {"guard", "conn", "holding"}}) <= 1
-                /\ \A r \in Active : stage[r] \in {"guard", "conn", "holding"} => disp = r
+C20_OneGuard == Cardinality({r \in Active : stage[r] \in {"guard", "conn", "holding"}}) <= 1
+(* (invariants are evaluated on every explored state, also on branches where TLC guessed the wrong request for a pick: *)
+(*  they must only state what holds on every such branch)                                                            *)
 
 TraceAccepted ==
     LET d == TLCGet("stats").diameter IN
